@@ -4,6 +4,7 @@ import MesaModel.Proofs.LegacyCalls
 import MesaModel.Proofs.LegacyIndex
 import MesaModel.Proofs.LegacySelect
 import MesaModel.Proofs.LegacyDraws
+import MesaModel.Proofs.LegacyTruth
 
 /-!
 # C08 — legacy grids: pos, cell contents, empties and empty_mask never disagree
@@ -65,6 +66,20 @@ theorem C08_emptiness_views (g : Grid) (hi : Inv g) :
 theorem C08_agents_view (g : Grid) (hi : Inv g) :
     g.agentsList.Nodup ∧ (∀ a, a ∈ g.agentsList ↔ g.pos a ≠ none) ∧ g.agentsList = g.allCells.flatMap g.content :=
   ⟨(agentsList_spec g hi).1, (agentsList_spec g hi).2, agentsList_eq g hi⟩
+
+/-- **`grid.agents` shows an agent whatever its truth value** (finding L-AGENTS-FALSY, repaired): agents are ordinary objects, a
+    subclass may define `__bool__` / `__len__`.  `grid.agents` of the model takes its emptiness test from the generated table
+    (`agentsTest`: probed on the four classes with a falsy agent on every run) and is handed the set `fz` of falsy agents; the
+    test of the code is `is None`, and with it `grid.agents` is the view of `C08_agents_view` for every `fz`.  (Before the repair
+    the table said `truthy` and the model left a falsy occupant of a SingleGrid out, as the code did: example below.) -/
+theorem C08_agents_whatever_truth_value (g : Grid) (fz : Falsy) :
+    agentsTest = .eqDefault ∧ g.agentsBy .eqDefault fz = g.agentsList ∧ g.agentsListT fz = g.agentsList :=
+  ⟨agentsTest_eq, agentsBy_eqDefault fz g, agentsListT_eq g fz⟩
+
+/-- the truthiness test (`if not entry: continue`) leaves the falsy agent 0 out of `grid.agents` of a SingleGrid, not of a MultiGrid -/
+example : (run (init 3 3 false false 8) [.place 0 (1, 1), .place 1 (0, 2)]).agentsBy .truthy [0] = [1] := by decide
+example : (run (init 3 3 false false 8) [.place 0 (1, 1), .place 1 (0, 2)]).agentsBy .eqDefault [0] = [1, 0] := by decide
+example : (run (init 3 3 false true 8) [.place 0 (1, 1), .place 1 (0, 2)]).agentsBy .truthy [0] = [1, 0] := by decide
 
 /-- indexing `grid[x, y]` wraps on a torus and rejects outside a bounded grid -/
 theorem C08_getitem_wraps_or_rejects (g : Grid) (hw : 0 < g.w) (hh : 0 < g.h) (p : Coord) :
